@@ -2,5 +2,5 @@ CONSTANTS
   MaxLen = 5
   Mode = "chain"
 SPECIFICATION Spec
-INVARIANTS ParserSound PrecOk Emit
+INVARIANTS ParserSound PrecOk TextAgrees Emit
 CHECK_DEADLOCK FALSE
